@@ -822,6 +822,9 @@ var wprogs = []wprog{
 	{"commit-only", 1, []wstep{{'m', 0}}, []role{rPut}},
 	{"w0-w8-w1-cancel-close", 8, []wstep{{'w', 0}, {'w', 8}, {'w', 1}, {'x', 0}, {'c', 0}, {'i', 0}}, []role{rPatch}},
 	{"w5-w5-close-commit", 4, []wstep{{'w', 5}, {'w', 5}, {'c', 0}, {'m', 0}}, []role{rPatch, rPatch, rPut}},
+	// a caller that keeps using the writer after Commit, whatever Commit answered
+	{"w3-commit-info-w9-commit-info-close", 4, []wstep{{'w', 3}, {'m', 0}, {'i', 0}, {'w', 9}, {'m', 0}, {'i', 0}, {'c', 0}}, []role{rPut, rPatch, rPut}},
+	{"commit-info-commit-cancel-info", 1, []wstep{{'m', 0}, {'i', 0}, {'m', 0}, {'x', 0}, {'i', 0}}, []role{rPut, rPut}},
 }
 
 type scenario struct {
